@@ -214,6 +214,31 @@ func c12Add(bs, lats []int64, class string) Case {
 		w.Z(p[0])
 		w.Z(p[1])
 	}
+	// the same results through Metrics.Add (the path of `report -type json -buckets ...`), with
+	// status codes and error texts that repeat
+	var h3 vegeta.Histogram
+	for _, b := range bs {
+		h3.Buckets = append(h3.Buckets, time.Duration(b))
+	}
+	viaMetrics := true
+	func() {
+		defer func() {
+			if recover() != nil {
+				viaMetrics = false
+			}
+		}()
+		m := vegeta.Metrics{Histogram: &h3}
+		for i, l := range lats {
+			r := vegeta.Result{Code: 200, Latency: time.Duration(l), Timestamp: time.Unix(1600000000, int64(i)*1000)}
+			if i%3 == 1 {
+				r.Code, r.Error = 500, []string{"500 Internal Server Error", "EOF"}[i%2]
+			}
+			m.Add(&r)
+		}
+		m.Close()
+	}()
+	w.Bool(viaMetrics)
+	w.Us(h3.Counts)
 	c.Tag = class
 	if len(lats) == 0 {
 		c.Tag = class + ".empty"
